@@ -155,6 +155,10 @@ pub struct DumpScn {
     /// damage applied to `target` (default: `file`) before the dump and undone after it
     #[serde(default)]
     pub damage: Option<Damage>,
+    /// after the dump, open the container again and let this many threads read every content at
+    /// the same time (several readers waiting on the same, possibly failing, decoder)
+    #[serde(default)]
+    pub threads: usize,
 }
 
 #[derive(Deserialize, Clone)]
@@ -369,10 +373,56 @@ fn dump_inner(s: &DumpScn) {
         Ok(Ok(c)) => {
             let d = dump_value(&c, s);
             emit(json!({"ev":"Dump","open":"ok","dump":d}));
+            if s.threads > 0 {
+                concurrent_read(s);
+            }
         }
         Ok(Err(e)) => emit(json!({"ev":"Dump","open":"err","err":e.to_string()})),
         Err(p) => emit(json!({"ev":"Dump","open":"panic","panic":p,"site":crate::out::last_panic_site()})),
     }
+}
+
+/// N threads read every content of every pack of a freshly opened container at the same time.
+fn concurrent_read(s: &DumpScn) {
+    let c = match catch(|| jbk::reader::Container::new(&s.file)) {
+        Ok(Ok(c)) => Arc::new(c),
+        _ => return,
+    };
+    let mut packs: Vec<(u16, u32)> = vec![];
+    for pid in &s.packs {
+        if let Ok(Some(MayMissPack::FOUND(p))) = c.get_pack(jbk::PackId::from(*pid)) {
+            packs.push((*pid, p.get_content_count().into_u32()));
+        }
+    }
+    let results = std::sync::Mutex::new((0usize, 0usize, 0usize));
+    std::thread::scope(|sc| {
+        for t in 0..s.threads {
+            let c = &c;
+            let packs = &packs;
+            let results = &results;
+            sc.spawn(move || {
+                for (pid, n) in packs.iter() {
+                    for k in 0..*n {
+                        // every thread visits the contents in the same order: they meet on the same clusters
+                        let idx = (k + (t as u32 % 2)) % n;
+                        let a = jbk::ContentAddress::new(jbk::PackId::from(*pid), jbk::ContentIdx::from(idx));
+                        let r = catch(|| match c.get_bytes(a) {
+                            Ok(Some(MayMissPack::FOUND(Some(region)))) => content::read_region(&region).is_ok(),
+                            _ => false,
+                        });
+                        let mut g = results.lock().unwrap();
+                        match r {
+                            Ok(true) => g.0 += 1,
+                            Ok(false) => g.1 += 1,
+                            Err(_) => g.2 += 1,
+                        }
+                    }
+                }
+            });
+        }
+    });
+    let g = results.lock().unwrap();
+    emit(json!({"ev":"Concurrent","threads":s.threads,"ok":g.0,"err":g.1,"panic":g.2}));
 }
 
 // ------------------------------------------------------------------ tools (concat, set_location, manifest view)
